@@ -62,6 +62,33 @@ fn check<C: Cm>(case: &Case) -> PResult {
     let mut sink: Vec<u8> = vec![];
     bincode::serialize_into(&mut sink, &orig).map_err(|e| Fail { site: format!("bincode_ser/{n_}"), msg: e.to_string() })?;
     ensure!(sink == bytes, format!("bincode_writer/{n_}"), "bincode::serialize_into and serialize disagree for a {what}");
+    // the same bytes at every alignment of the input buffer, and the sequence as a field of a larger
+    // record (behind a tag, after a name of any length): where the image starts must not matter
+    let shifts: &[usize] = if codes.len() <= 300 { &[1, 2, 3, 4, 5, 6, 7, 8] } else { &[1, 4] };
+    for &k in shifts {
+        let mut buf = vec![0xA5u8; k];
+        buf.extend_from_slice(&bytes);
+        let r: Result<Seq<C>, _> = no_panic(&format!("bincode_de_panic/{n_}"), "bincode::deserialize at a buffer offset", || bincode::deserialize(&buf[k..]))?;
+        let r = r.map_err(|e| Fail { site: format!("bincode_shifted_de/{n_}"), msg: format!("bincode::deserialize of a serialized {what} from offset {k} of a buffer failed: {e}") })?;
+        ensure!(r == orig, format!("bincode_shifted_eq/{n_}"), "bincode round trip of a {what} read from offset {k} of a buffer: {r} != {orig}");
+        check_content(&sy, &r, codes, &format!("bincode_shifted_content/{n_}"))?;
+    }
+    for name_len in [0usize, 1, 3, 5, 8, codes.len() % 11] {
+        let rec: (String, Option<Seq<C>>, u8, Vec<Seq<C>>) = ("n".repeat(name_len), Some(orig.clone()), 7, vec![orig.clone(), orig.clone()]);
+        let b = bincode::serialize(&rec).map_err(|e| Fail { site: format!("bincode_ser/{n_}"), msg: e.to_string() })?;
+        let r: Result<(String, Option<Seq<C>>, u8, Vec<Seq<C>>), _> = no_panic(&format!("bincode_de_panic/{n_}"), "bincode::deserialize of a record", || bincode::deserialize(&b))?;
+        let r = r.map_err(|e| Fail { site: format!("bincode_record_de/{n_}"), msg: format!("bincode::deserialize of a record holding a {what} failed: {e}") })?;
+        ensure!(r.0 == rec.0 && r.2 == 7 && r.1.as_ref() == Some(&orig) && r.3.len() == 2 && r.3[0] == orig && r.3[1] == orig, format!("bincode_record_eq/{n_}"), "bincode round trip of a record (name of {name_len} bytes, Option, Vec) holding a {what}");
+        check_content(&sy, r.1.as_ref().unwrap(), codes, &format!("bincode_record_content/{n_}"))?;
+        check_content(&sy, &r.3[1], codes, &format!("bincode_record_content/{n_}"))?;
+        if name_len <= 1 {
+            let t = serde_json::to_string(&rec).map_err(|e| Fail { site: format!("json_ser/{n_}"), msg: e.to_string() })?;
+            let r: Result<(String, Option<Seq<C>>, u8, Vec<Seq<C>>), _> = serde_json::from_str(&t);
+            let r = r.map_err(|e| Fail { site: format!("json_record_de/{n_}"), msg: format!("serde_json::from_str of a record holding a {what} failed: {e}") })?;
+            ensure!(r.1.as_ref() == Some(&orig) && r.3.len() == 2 && r.3[0] == orig && r.3[1] == orig, format!("json_record_eq/{n_}"), "JSON round trip of a record holding a {what}");
+            check_content(&sy, &r.3[0], codes, &format!("json_record_content/{n_}"))?;
+        }
+    }
     // the round-tripped value is a fully working sequence: edit it like the original
     let mut e1 = back.clone();
     let mut e2 = orig.clone();
